@@ -13,10 +13,11 @@ plan = {
   "ops": [ {"op": "load_key", "rk": i},
            {"op": "protect", "fl": "sync"|"async", "sid": s, "rk": i|None, "net": "online"|"offline", "data": n, "group": g|None},
            {"op": "unprotect", "fl": .., "net": .., "blob": {"rk": i, "sid": s, "pos": [l0,l1,l2], "mode": "nonce"|"pub", "trailing": bool, "data": n}
-                                                   | {"from_op": k, "relayout": bool}, "group": g|None, "cache": "shared"|"fresh"},
+                                                   | {"from_op": k, "relayout": bool}, "group": g|None, "cache": "shared"|"fresh"|<name of another shared cache>},
            {"op": "clock", "advance_ticks": n} | {"op": "clock", "set_ft": n},
            {"op": "identity", "sids": [...]}          # the authenticated caller's group memberships from now on
            {"op": "partition", "on": bool},
+           {"op": "app_random_seed", "value": n},     # the application calls random.seed(n)
            # fl "thread" + group g: the group's operations are sync calls made by caller threads that share the process, interleaved at
            # line (or opcode) events inside dpapi_ng by simworld.threads (policy: plan["threads"], explicit per group: plan["thread_scripts"])
          ] }
@@ -190,6 +191,7 @@ def execute_plan(plan: dict, kdf_limit: int = 300, keep_events: bool = False) ->
     world.default_delivery = plan.get("delivery")
     cache = dpapi_ng.KeyCache()
     tr.cache = cache
+    named_caches: t.Dict[str, t.Any] = {}
     lat = tuple(plan.get("latency_us", (50, 4000)))
     use_dns = plan.get("use_dns", False)
     resolver = _Resolver(world, offline.DC)
@@ -206,7 +208,13 @@ def execute_plan(plan: dict, kdf_limit: int = 300, keep_events: bool = False) ->
 
     def prepare(i: int, op: dict) -> t.Tuple[OpTrace, t.Callable]:
         ot = OpTrace(i, op)
-        the_cache = cache if op.get("cache", "shared") == "shared" else dpapi_ng.KeyCache()
+        which = op.get("cache", "shared")
+        if which == "shared":
+            the_cache = cache
+        elif which == "fresh":
+            the_cache = dpapi_ng.KeyCache()
+        else:  # another named cache shared by the operations that name it (e.g. a second process-wide cache that starts empty)
+            the_cache = named_caches.setdefault(which, dpapi_ng.KeyCache())
         kw = api_kwargs(op, the_cache)
         if op["op"] == "protect":
             pt = data_bytes(op.get("data", 16), i + 1000 * seed) if not op.get("same_data") else data_bytes(op.get("data", 16), 7)
@@ -293,6 +301,18 @@ def execute_plan(plan: dict, kdf_limit: int = 300, keep_events: bool = False) ->
                         tr.child_pid = pid
                         tr.child_rfd = rfd
                     world.stats["fork"] += 1
+                    ot.outcome = drive.Outcome("ok", None)
+                    tr.ops.append(ot)
+                    i += 1
+                    continue
+                if kind == "app_random_seed":
+                    # the application (a test runner, a job scheduler) re-seeds Python's global PRNG between two calls; the library's
+                    # key material must not depend on that generator
+                    import random as _global_random
+
+                    ot = OpTrace(i, op)
+                    _global_random.seed(op.get("value", 1234))
+                    world.stats["app_reseed"] += 1
                     ot.outcome = drive.Outcome("ok", None)
                     tr.ops.append(ot)
                     i += 1
